@@ -324,7 +324,6 @@ func concurrent(r *vk.Run) {
 	}
 }
 
-
 // deleteStorm: several goroutines released together delete the same existing, non-active mode (Model API or
 // ModelServer RPC). With allow-missing every one of them succeeds; without it exactly one does and the others get
 // NotFound; afterwards the mode is gone and the active mode untouched.
